@@ -72,8 +72,13 @@ Definition model_mutate_one (incl : bool) (op : Z) (x : expr) (d v : jv) : bytes
   (if comparable then x63 else x75) :: x20 ::
   join_semi (map (fun r => show (canon r)) (one_candidates six (if 3 <=? op then 3 else op) x v (modifier (op - 3) v) d)).
 
-Require Import Ojg.Jp.Str.
-Definition model_jpstr (s : bytes) (delim : byte) : bytes := hex_of_bytes (append_string s delim).
+Require Import Ojg.Jp.Str Ojg.Jp.StrU.
+Definition model_jpstr (s : bytes) (delim : byte) : bytes := hex_of_bytes (append_string_u s delim).
+Definition model_jpread (term : byte) (w : bytes) : bytes :=
+  match read_str term w with
+  | None => [x2d]
+  | Some (s, k) => hex_of_bytes s ++ x20 :: hex_of_bytes k
+  end.
 
 Definition model_matchdoc (targets : list expr) (d : jv) : bytes :=
   join_semi (map (fun pc => show_npath (fst pc) ++ x20 :: x7c :: x20 :: show (canon (snd pc))) (match_spec targets d)).
